@@ -280,9 +280,9 @@ func init() {
 		ID:    "C02",
 		Level: "exploration",
 		Rule: "generated trees (1-40 nodes, depth <=6; plain, spaced, dotted, dashed, non-ASCII, glob-ish, 100/101/155/156/255-byte names; empty/1B/4KiB/1MiB files; a 24-value mode set per tree plus a sweep of all 512 file modes; directories incl. empty and 0555/0500; " +
-			"mtimes with .0/.4/.5/.6 fractions incl. pre-2001 and post-2242 values; in-tree relative links: same dir, up-and-down, dangling, to directories, dotted; optional fifos/sockets and .git/.terraform subtrees) are packed with each of the 4 option sets and unpacked into an empty directory, as root and as uid 65534; " +
+			"mtimes with .0/.4/.5/.6 fractions incl. pre-2001 and post-2242 values; in-tree relative links: same dir, up-and-down, dangling, to directories, dotted; optional fifos/sockets and .git/.terraform subtrees; plus an exhaustive family with .terraform/modules in 4 modes x 4 contents x 3 depths beside excluded siblings) are packed with each of the 4 option sets and unpacked into an empty directory, as root and as uid 65534; " +
 			"the two trees are read back with Lstat/Readlink and compared. non-trivial = tree has an empty dir, a non-0644/0755 mode, a fractional mtime, a PAX-needing name or a link; distinct = tree x options x privilege",
-		Assumptions: []string{"the source root's own mode/mtime are not part of a slug and are not compared", "symlink mtimes are not compared", "trees for the unprivileged runs keep owner read (files) / read+search (dirs) permission, otherwise Pack cannot read them", "links that leave the tree or use the root's own name belong to C05"},
+		Assumptions: []string{"the source root's own mode/mtime are not part of a slug and are not compared", "symlink mtimes are not compared", "trees for the unprivileged runs keep owner read (files) / read+search (dirs) permission, otherwise Pack cannot read them", "links that leave the tree (as written, or because another link on the way leads them out) or use the root's own name belong to C05"},
 		Phases:      append(rtPhases("C02", false), rtPhases("C02", true)...),
 	})
 }
